@@ -1,8 +1,42 @@
-(* C46 — proofs (placeholder, extended below). *)
+(* C46 — the statements exported to Properties/C46.v, with examples. *)
 From Coq Require Import ZArith List Bool Lia.
-From GV Require Import C46.Model.
+From GV Require Import C46.Model C46.FanIn C46.FanOut.
 Import ListNotations.
 Open Scope Z_scope.
 
-Lemma merge_init_out n : m_out (merge_init n) = [].
-Proof. reflexivity. Qed.
+(* examples: non-trivial reachable states *)
+Example ex_merge : exists fs s,
+  fan_reach merge_recv [[0; 16]; [1]] (merge_init 2) fs s /\ m_completed s = 1%nat /\ map snd (m_out s) = [1; 0; 16].
+Proof.
+  eexists. eexists. split.
+  - eapply fr_step. eapply fr_step. eapply fr_step. eapply fr_step. eapply fr_step. eapply fr_step. apply fr_init.
+    + apply (fs_req _ 5). lia.
+    + apply (fs_val _ 1%nat 1 []). reflexivity.
+    + apply (fs_val _ 0%nat 0 [16]). reflexivity.
+    + apply (fs_done _ 1%nat). reflexivity.
+    + apply (fs_val _ 0%nat 16 []). reflexivity.
+    + apply (fs_done _ 0%nat). reflexivity.
+  - vm_compute. auto.
+Qed.
+
+Example ex_balance : exists e s,
+  hub_reach Balance 2 [7; 8; 9] (e, s) /\ h_routed s = [(0%nat, 7); (1%nat, 8)] /\ e_rest e = [9].
+Proof.
+  pose proof (hr_init Balance 2 [7; 8; 9]) as R0.
+  match type of R0 with hub_reach _ _ _ (?e, ?s) =>
+    pose proof (hr_step _ _ _ _ _ R0 (hs_demand Balance e s 0%nat 1 ltac:(simpl; lia) ltac:(lia))) as R1 end.
+  vm_compute in R1.
+  match type of R1 with hub_reach _ _ _ (?e, ?s) =>
+    pose proof (hr_step _ _ _ _ _ R1 (hs_demand Balance e s 1%nat 2 ltac:(simpl; lia) ltac:(lia))) as R2 end.
+  vm_compute in R2.
+  match type of R2 with hub_reach _ _ _ (?e, ?s) =>
+    pose proof (hr_step _ _ _ _ _ R2 (hs_elem Balance e s 7 [8; 9] eq_refl ltac:(simpl; lia) eq_refl)) as R3 end.
+  vm_compute in R3.
+  match type of R3 with hub_reach _ _ _ (?e, ?s) =>
+    pose proof (hr_step _ _ _ _ _ R3 (hs_elem Balance e s 8 [9] eq_refl ltac:(simpl; lia) eq_refl)) as R4 end.
+  vm_compute in R4.
+  eexists. eexists. split; [exact R4|]. vm_compute. auto.
+Qed.
+
+Example ex_kind_ok : kind_ok (Partition 3) 3 /\ kind_ok Broadcast 1 /\ kind_ok Balance 5.
+Proof. unfold kind_ok. simpl. repeat split; lia. Qed.
